@@ -2159,8 +2159,15 @@ impl SpeechRules {
         let rule_file = self.pref_manager.borrow().get_rule_file(&self.name).to_path_buf();     // need to create PathBuf to avoid a move/use problem
         if self.rules.is_empty() || !self.rule_files.is_file_up_to_date(&rule_file, should_ignore_file_time) {
             self.rules.clear();
-            let files_read = self.read_patterns(&rule_file)?;
-            self.rule_files.set_files_and_times(files_read);
+            match self.read_patterns(&rule_file) {
+                Ok(files_read) => self.rule_files.set_files_and_times(files_read),
+                Err(e) => {
+                    // a failed read must not leave a partly filled table that looks current for the files read before it
+                    self.rules.clear();
+                    self.rule_files.set_files_and_times(vec![]);
+                    return Err(e);
+                },
+            }
         }
 
         let pref_manager = self.pref_manager.borrow();
@@ -2168,14 +2175,27 @@ impl SpeechRules {
 
         if !self.unicode_short_files.borrow().is_file_up_to_date(unicode_pref_files.0, should_ignore_file_time) {
             self.unicode_short.borrow_mut().clear();
-            self.unicode_short_files.borrow_mut().set_files_and_times(self.read_unicode(None, true)?);
+            match self.read_unicode(None, true) {
+                Ok(files_read) => self.unicode_short_files.borrow_mut().set_files_and_times(files_read),
+                Err(e) => {
+                    self.unicode_short.borrow_mut().clear();
+                    self.unicode_short_files.borrow_mut().set_files_and_times(vec![]);
+                    return Err(e);
+                },
+            }
         }
 
         if self.definitions_files.borrow().ft.is_empty() || !self.definitions_files.borrow().is_file_up_to_date(
                             pref_manager.get_definitions_file(self.name != RulesFor::Braille),
                             should_ignore_file_time
         ) {
-            self.definitions_files.borrow_mut().set_files_and_times(read_definitions_file(self.name != RulesFor::Braille)?);
+            match read_definitions_file(self.name != RulesFor::Braille) {
+                Ok(files_read) => self.definitions_files.borrow_mut().set_files_and_times(files_read),
+                Err(e) => {
+                    self.definitions_files.borrow_mut().set_files_and_times(vec![]);
+                    return Err(e);
+                },
+            }
         }
         return Ok( () );
     }
@@ -2578,7 +2598,14 @@ impl<'c, 's:'c, 'r, 'm:'c> SpeechRulesWithContext<'c, 's,'m> {
                 if rules.unicode_full.borrow().is_empty() || !rules.unicode_full_files.borrow().is_file_up_to_date(unicode_pref_files.1, should_ignore_file_time) {
                     info!("*** Loading full unicode {} for char '{}'/{:#06x}", rules.name, ch, ch_as_u32);
                     rules.unicode_full.borrow_mut().clear();
-                    rules.unicode_full_files.borrow_mut().set_files_and_times(rules.read_unicode(None, false)?);
+                    match rules.read_unicode(None, false) {
+                        Ok(files_read) => rules.unicode_full_files.borrow_mut().set_files_and_times(files_read),
+                        Err(e) => {
+                            rules.unicode_full.borrow_mut().clear();
+                            rules.unicode_full_files.borrow_mut().set_files_and_times(vec![]);
+                            return Err(e);
+                        },
+                    }
                     info!("# Unicode defs = {}/{}", rules.unicode_short.borrow().len(), rules.unicode_full.borrow().len());
                 }
                 unicode = rules.unicode_full.borrow();
